@@ -27,24 +27,50 @@ theorem bind_ok {α β} {x : RM σ α} {f : α → RM σ β} {s s' : σ} {a : α
 theorem bind_err {α β} {x : RM σ α} {f : α → RM σ β} {s : σ} {e : ErrClass} (h : x s = .err e) :
     (x >>= f) s = .err e := by rw [bind_apply, h]
 
+theorem bind_ok2 {α β γ} {x : RM σ α} {f : α → RM σ β} {g : β → RM σ γ} {s s' : σ} {a : α}
+    (h : x s = .ok (a, s')) : ((x >>= f) >>= g) s = (f a >>= g) s' := by
+  rw [bind_apply, bind_ok h, ← bind_apply]
+
 @[simp] theorem pure_apply {α} (a : α) (s : σ) : (pure a : RM σ α) s = .ok (a, s) := rfl
 @[simp] theorem fail_apply {α} (e : ErrClass) (s : σ) : (RM.fail e : RM σ α) s = .err e := rfl
 @[simp] theorem stateError_apply {α} (s : σ) : (stateError : RM σ α) s = .err .state := rfl
 @[simp] theorem read_apply {α} (f : σ → α) (s : σ) : (RM.read f) s = .ok (f s, s) := rfl
+theorem readR_ok {α} {g : σ → Outcome α} {s : σ} {a : α} (h : g s = .ok a) : RM.readR g s = .ok (a, s) := by
+  simp [RM.readR, h, Outcome.bind]
+theorem readR_err {α} {g : σ → Outcome α} {s : σ} {e : ErrClass} (h : g s = .err e) : RM.readR g s = .err e := by
+  simp [RM.readR, h, Outcome.bind]
 @[simp] theorem orNumErr_some {α} (a : α) (s : σ) : (orNumErr (some a) : RM σ α) s = .ok (a, s) := rfl
 @[simp] theorem orNumErr_none {α} (s : σ) : (orNumErr (none : Option α) : RM σ α) s = .err .number := rfl
 
 /-! ### effects compose -/
 
-theorem _root_.Garnish.Model.Runtime.Keeps.refl (S : RStore F σ) (s : σ) : Keeps S s s := ⟨fun _ _ h => h, rfl, rfl, rfl⟩
+theorem _root_.Garnish.Model.Runtime.Keeps.refl (S : RStore F σ) (s : σ) : Keeps S s s := ⟨fun _ _ h => h, rfl, rfl, rfl, rfl⟩
 
 theorem _root_.Garnish.Model.Runtime.Keeps.trans {s s1 s2 : σ} (h1 : Keeps S s s1) (h2 : Keeps S s1 s2) : Keeps S s s2 :=
-  ⟨fun a v h => h2.dec a v (h1.dec a v h), h2.jump.trans h1.jump, h2.ilen.trans h1.ilen, h2.cur.trans h1.cur⟩
+  ⟨fun a v h => h2.dec a v (h1.dec a v h), h2.jump.trans h1.jump, h2.ilen.trans h1.ilen, h2.cur.trans h1.cur,
+    h2.instr.trans h1.instr⟩
 
-theorem _root_.Garnish.Model.Runtime.Eff.refl (S : RStore F σ) (s : σ) : Eff S s s (S.regs s) (S.vals s) := ⟨Keeps.refl S s, rfl, rfl, rfl⟩
+theorem _root_.Garnish.Model.Runtime.Eff.refl (S : RStore F σ) (s : σ) : Eff S s s (S.regs s) (S.vals s) := ⟨Keeps.refl S s, rfl, rfl, rfl, rfl⟩
 
 theorem _root_.Garnish.Model.Runtime.Eff.trans {s s1 s2 : σ} {R1 V1 R2 V2 : List Nat} (h1 : Eff S s s1 R1 V1) (h2 : Eff S s1 s2 R2 V2) :
-    Eff S s s2 R2 V2 := ⟨h1.keeps.trans h2.keeps, h2.regs, h2.vals, h2.trace.trans h1.trace⟩
+    Eff S s s2 R2 V2 :=
+  ⟨h1.keeps.trans h2.keeps, h2.regs, h2.vals, h2.trace.trans h1.trace, h2.frames.trans h1.frames⟩
+
+theorem _root_.Garnish.Model.Runtime.Eff.toF {s s' : σ} {R V : List Nat} (h : Eff S s s' R V) :
+    FEff S s s' R V (S.frames s) := ⟨h.keeps, h.regs, h.vals, h.trace, h.frames⟩
+
+theorem _root_.Garnish.Model.Runtime.FEff.trans {s s1 s2 : σ} {R1 V1 R2 V2 : List Nat} {Fr1 Fr2 : List (Nat × List Nat)}
+    (h1 : FEff S s s1 R1 V1 Fr1) (h2 : FEff S s1 s2 R2 V2 Fr2) : FEff S s s2 R2 V2 Fr2 :=
+  ⟨h1.keeps.trans h2.keeps, h2.regs, h2.vals, h2.trace.trans h1.trace, h2.frames⟩
+
+/-- an ordinary effect after a frame effect keeps the new frame chain -/
+theorem _root_.Garnish.Model.Runtime.FEff.thenEff {s s1 s2 : σ} {R1 V1 R2 V2 : List Nat} {Fr1 : List (Nat × List Nat)}
+    (h1 : FEff S s s1 R1 V1 Fr1) (h2 : Eff S s1 s2 R2 V2) : FEff S s s2 R2 V2 Fr1 :=
+  ⟨h1.keeps.trans h2.keeps, h2.regs, h2.vals, h2.trace.trans h1.trace, h2.frames.trans h1.frames⟩
+
+theorem _root_.Garnish.Model.Runtime.FEff.dec {s s' : σ} {R V : List Nat} {Fr : List (Nat × List Nat)}
+    (h : FEff S s s' R V Fr) {a : Nat} {v : Val F} (d : Decodes (S.view s) a v) : Decodes (S.view s') a v :=
+  h.keeps.dec a v d
 
 /-- re-express an effect stated relative to the intermediate state -/
 theorem _root_.Garnish.Model.Runtime.Eff.after {s s1 s2 : σ} {R1 V1 : List Nat} (h1 : Eff S s s1 R1 V1)
